@@ -145,3 +145,54 @@ func (l *liveScreen) fini() {
 	case <-time.After(20 * time.Second):
 	}
 }
+
+// trickle feeds each item one byte per read, 20 ms apart (so that the whole item takes
+// longer than the 50 ms escape timeout while no single gap does), through the real reader and
+// main loop, and compares with what the parser makes of the item in one read. Rounds in
+// which the harness itself paused too long are discarded, not judged.
+func trickle(r *core.Run, ti *terminfo.Terminfo, items [][]byte, label string) {
+	d, err := newDecoder(ti, "UTF-8", 20, 5)
+	if err != nil {
+		r.Inconclusive(err.Error())
+		return
+	}
+	for k, b := range items {
+		want, _, _ := d.whole(b)
+		ls, err := startScreen(ti, 20, 5, nil)
+		if err != nil {
+			r.Inconclusive(err.Error())
+			return
+		}
+		wait := ls.startPoll(0x1d)
+		maxGap := time.Duration(0)
+		last := time.Now()
+		for i := range b {
+			if i > 0 {
+				time.Sleep(20 * time.Millisecond)
+			}
+			ls.tty.Feed(b[i : i+1])
+			if g := time.Since(last); i > 0 && g > maxGap {
+				maxGap = g
+			}
+			last = time.Now()
+		}
+		ls.tty.Feed([]byte{0x1d})
+		got, ok := wait()
+		ls.judgeSentinel(r, ok, label+" trickle")
+		ls.fini()
+		switch {
+		case !ok:
+			r.Case("")
+		case maxGap > 40*time.Millisecond:
+			r.Count("trickle_rounds_with_compromised_timing", 1)
+			r.Case("")
+		default:
+			r.Case(fmt.Sprintf("%s-trickle|%s|%d", label, ti.Name, k))
+			r.Count("trickle_rounds", 1)
+			if !evsEq(got, want) {
+				r.Violate("pipeline:trickle:"+label, fmt.Sprintf("%s: %q sent one byte per read, 20 ms apart (largest gap %v): delivered %s, in one read it decodes to %s", ti.Name, b, maxGap, evsStr(got), evsStr(want)), nil)
+				return
+			}
+		}
+	}
+}
